@@ -36,6 +36,17 @@ impl Chooser {
     pub fn pick<'a, T>(&mut self, xs: &'a [T]) -> &'a T {
         &xs[self.next(xs.len())]
     }
+    /// a decision derived from the whole choice vector without consuming a choice (so that
+    /// features added later do not change how recorded choice vectors decode); an all-zero
+    /// vector (the simplest case) gives 0
+    pub fn aux(&self, salt: u64, n: usize) -> usize {
+        let mut h: u64 = 0;
+        for (i, v) in self.data.iter().enumerate() {
+            h = h.wrapping_add((*v as u64).wrapping_mul(0x9E37_79B9_7F4A_7C15 ^ (i as u64 + salt).wrapping_mul(0xBF58_476D_1CE4_E5B9)));
+        }
+        h ^= h >> 31;
+        ((h % 65536) as usize * n) >> 16
+    }
 }
 
 pub fn choices(len: usize) -> BoxedStrategy<Vec<u16>> {
@@ -575,6 +586,14 @@ pub fn ug_assumptions(c: &mut Chooser, names: &Names) -> Vec<fol::AnnotatedFormu
             );
             out.push(annotated(fol::Role::Assumption, fol::Direction::Universal, "n_bound", f));
         }
+    }
+    // an annotated formula of a role that a user guide ignores (with a warning): "no input holds";
+    // it would change verdicts if it were used as an assumption
+    if c.aux(1, 6) == 5 {
+        let p = names.inputs[c.aux(2, names.inputs.len())].clone();
+        let f = fforall("X", fbin(fol::BinaryConnective::Implication, fatom(&p, fvar("X")), fcmp(fvar("X"), fol::Relation::NotEqual, fvar("X"))));
+        let role = [fol::Role::Lemma, fol::Role::Spec, fol::Role::InductiveLemma][c.aux(3, 3)];
+        out.insert(c.aux(4, out.len() + 1), annotated(role, fol::Direction::Universal, "", f));
     }
     out
 }
